@@ -99,7 +99,7 @@ func newWireModel(c *core.Ctx) *wireModel {
 			})
 		case "StreamReader":
 			core.Instrs(f, func(in ssa.Instruction) {
-				if core.IsCallTo(in, "io", "ReadFull") {
+				if core.IsFullRead(in) {
 					call := in.(ssa.CallInstruction)
 					if fld, _ := core.LoadedField(call.Common().Args[0]); fld != nil {
 						if _, isParam := call.Common().Args[1].(*ssa.Parameter); isParam {
@@ -208,6 +208,18 @@ func (m *wireModel) writeArg(bs ssa.Value) string {
 	}
 	if p, ok := bs.(*ssa.Parameter); ok {
 		return "bytes(" + core.Sym(p) + ")"
+	}
+	// bigEndian.AppendUintN(buf[:0], v): exactly the N/8 big-endian bytes of v
+	if call, ok := bs.(*ssa.Call); ok && len(call.Call.Args) == 3 {
+		if cal := call.Call.StaticCallee(); cal != nil && cal.Pkg != nil && cal.Pkg.Pkg.Path() == "encoding/binary" && strings.HasPrefix(cal.Name(), "AppendUint") {
+			order := map[string]string{"bigEndian": "be", "littleEndian": "le"}[recvNamed(cal)]
+			bits := strings.TrimPrefix(cal.Name(), "AppendUint")
+			if sl, isSl := call.Call.Args[1].(*ssa.Slice); isSl && order != "" && sl.Low == nil && sl.High != nil {
+				if h, isC := core.ConstInt(sl.High); isC && h == 0 {
+					return order + bits + "(" + core.Sym(call.Call.Args[2]) + ")"
+				}
+			}
+		}
 	}
 	if c, ok := isBuiltin(bs, "Slice"); ok { // unsafe.Slice(unsafe.StringData(s), len(s))
 		if d, ok := isBuiltin(c.Call.Args[0], "StringData"); ok {
@@ -518,7 +530,7 @@ func (m *wireModel) RSeqs(f *ssa.Function) [][]string {
 			} else {
 				out = []string{"alt{" + strings.Join(alts, "|") + "}"}
 			}
-		case core.IsCallTo(call, "io", "ReadFull") && f == m.rprim:
+		case core.IsFullRead(call) && f == m.rprim:
 			out = []string{"RAWREAD($1)"}
 		case core.IsCallTo(call, "io", "CopyN"):
 			out = []string{"copyN(" + core.Sym(call.Call.Args[2]) + ")"}
